@@ -102,6 +102,9 @@ func NewRun(id, tier string, replay ReplayFunc) *Run {
 // exhaustive:false (exit status stays 0 when nothing failed).
 func (r *Run) SetBudget(d time.Duration) { r.deadline = r.start.Add(d) }
 
+// Deadline returns the internal deadline (zero if none).
+func (r *Run) Deadline() time.Time { return r.deadline }
+
 // OutOfTime reports whether the internal deadline has passed; the first call
 // that sees it records the cap.
 func (r *Run) OutOfTime(what string) bool {
